@@ -217,7 +217,7 @@ Definition init_as_coded (ts ends : list Z) (P : Z) (init : option Z) : option Z
     else if existsb (fun t => (e0 - P <? t) && (t <=? e0)) ts then None else init
   end.
 
-(* ---------- wire ---------- *)
+(* ---------- wire helpers (the wire functions live in Model/SensorToCatSrc.v) ---------- *)
 Definition of_res_list (r : res (list Z)) : sx :=
   match r with Ok l => L [I 1; of_Zs l] | Err => L [I 0] end.
 Definition to_pairs (x : sx) : list (Z * Z) :=
@@ -225,33 +225,6 @@ Definition to_pairs (x : sx) : list (Z * Z) :=
 Definition to_tr (x : sx) : option (list (Z * Z)) :=
   match x with L [m] => Some (to_pairs m) | _ => None end.
 
-(* (ts vals ends P tr init greedy allow_repeats) ->
-   ((ok events indices unique_values per_dump) (ok spec_per_dump) (ok spec with the initial value as coded)) *)
-Definition wire_10 (x : sx) : sx :=
-  match x with
-  | L [ts; vals; ends; I P; tr; init; greedy; ar] =>
-      let ts := to_Zs ts in let vals := to_Zs vals in let ends := to_Zs ends in
-      let tr := to_tr tr in let init := to_optZ init in let greedy := to_Zs greedy in
-      let ar := to_bool ar in
-      let m := match sensor_to_categorical ts vals ends P tr init greedy ar with
-               | Ok c => L [I 1; of_Zs (cevents c); of_nats (indices c); of_Zs (unique_values c);
-                            of_res_list (cat_all c)]
-               | Err => L [I 0]
-               end in
-      let sp := fun i => match spec_per_dump ts vals ends P tr i greedy with
-                         | Some l => L [I 1; of_Zs l] | None => L [I 0] end in
-      L [m; sp init; sp (init_as_coded ts ends P init)]
-  | _ => sx_err
-  end.
-
-(* the generator alone: (events-with-terminator greedy-flags) -> (cleaned_up mutated-events) *)
-Definition wire_101 (x : sx) : sx :=
-  match x with
-  | L [ev; g] =>
-      let '(c, e) := single_event_per_dump (to_Zs ev) (to_bools g) in
-      L [of_nats c; of_Zs e]
-  | _ => sx_err
-  end.
 
 (* ---------- the generator with its look-ups cached (proof device; same algorithm, no index arithmetic) ----------
    State: current dump / value of previous_winning_event, whether it is the latest event seen, value of the latest
@@ -278,26 +251,35 @@ Definition arun (isg : Z -> bool) (a : ast) (l : list (Z * Z)) : ast :=
 Definition afinal (isg : Z -> bool) (v0 : Z) (l : list (Z * Z)) (N : Z) : list (Z * Z) :=
   aout (astep isg (arun isg (mk_ast 0 v0 true v0 0 []) l) N 0 false).
 
-(* (dumps-with-terminator values greedy-values) -> ((value dump) pairs of the index-based generator,
-                                                     (value dump) pairs of the cached-look-up generator) *)
-Definition wire_102 (x : sx) : sx :=
-  match x with
-  | L [ev; vals; g] =>
-      let ev := to_Zs ev in let vals := to_Zs vals in let g := to_Zs g in
-      let isg := fun v => memZ v g in
-      let '(c, e) := single_event_per_dump ev (map isg vals) in
-      let p1 := map (fun i => L [I (nth i vals 0); I (nth i e 0)]) c in
-      let p2 := match combine (removelast ev) vals with
-                | (_, v0) :: t => map (fun p => L [I (fst p); I (snd p)]) (afinal isg v0 t (last ev 0))
-                | [] => []
-                end in
-      L [L p1; L p2]
-  | _ => sx_err
-  end.
-
 (* guard of C10_per_dump_partial: the initial value is used by the code as the rule says, i.e. NOT the F14 situation
    (an initial value is given, no event at or before the start of dump 0, and an event inside dump 0) *)
 Definition opt_eqb (a b : option Z) : bool :=
   match a, b with Some x, Some y => x =? y | None, None => true | _, _ => false end.
 Definition c10_guard (ts ends : list Z) (P : Z) (init : option Z) : bool :=
   opt_eqb (init_as_coded ts ends P init) init.
+
+(* ---------- the exact boundary of finding F14 ----------
+   situation: an initial value is given, no event at or before the start of dump 0, an event inside dump 0
+   (then the code drops the initial value); it matters only if the initial value would have won dump 0 *)
+Definition no_prior (ts : list Z) (lo : Z) : bool := negb (existsb (fun t => t <=? lo) ts).
+Definition in_first (ts : list Z) (lo hi : Z) : bool := existsb (fun t => (lo <? t) && (t <=? hi)) ts.
+Definition f14_situation (ts ends : list Z) (P : Z) (init : option Z) (greedy : list Z) : bool :=
+  match init, ends with
+  | Some i, e0 :: _ => memZ i greedy && no_prior ts (e0 - P) && in_first ts (e0 - P) e0
+  | _, _ => false
+  end.
+(* values of the events inside dump 0 *)
+Definition first_dump_values (ts vals ends : list Z) (P : Z) (tr : option (list (Z * Z))) : list Z :=
+  match ends with
+  | e0 :: _ => sel (fun t => (e0 - P <? t) && (t <=? e0)) (combine ts (map (app_tr tr) vals))
+  | [] => []
+  end.
+Definition f14_differs (ts vals ends : list Z) (P : Z) (tr : option (list (Z * Z))) (init : option Z)
+                       (greedy : list Z) : bool :=
+  match init, ends with
+  | Some i, e0 :: _ =>
+      let X := first_dump_values ts vals ends P tr in
+      let isg := fun v => memZ v greedy in
+      no_prior ts (e0 - P) && in_first ts (e0 - P) e0 && negb (pick isg (i :: X) =? pick isg X)
+  | _, _ => false
+  end.
